@@ -12,12 +12,20 @@ package main
 // styles: a blank between any two, none next to brackets, and none wherever
 // the tokens stay the same without (-2.5.floor(), !x.k, a*-b), so that a
 // prefix operator also stands directly in front of its operand.
+//
+// Two further families have closed-form oracles: is-after-prefix (`is` with every type name
+// after every prefix operator stack, the test at every place in the stack, over operands of
+// every type: the value follows from "! gives a bool, - + give a number") and many-groups
+// (hundreds to thousands of parenthesised groups in one program, shallow and 150-300 deep:
+// the value is the sum computed while the text is generated).
 
 import (
 	"encoding/hex"
 	"fmt"
+	"math"
 	"math/rand"
 	"regexp"
+	"strconv"
 	"strings"
 )
 
@@ -1253,5 +1261,368 @@ func init() {
 				}
 			}
 		},
+	})
+}
+
+// ---- `is` after prefix operators ---------------------------------------------
+
+// operands of every type; what ! and - / + make of them follows from truthiness and from the
+// number the value counts as (DESIGN section 3; unary operators never fail)
+type c06IsOperand struct {
+	text   string
+	ty     string // the one type name for which `text is <name>` holds ("" = none: a builtin function)
+	truthy bool
+	num    float64
+}
+
+const c06IsFuncs = "function fr(x) { return x }\n"
+const c06IsPreset = "n1 = 7; z0 = 0; s1 = 'ab'; e1 = ''; d1 = '2.5'; o = {k: 4.5}; arr = [5]; e2 = []; t1 = true; f1 = false; nul = null; y = 3\n"
+const c06IsInput = `{"n": 5, "z": null, "s": "ab", "t": true, "f": false, "a": [1], "o": {"k": 1}, "zero": 0}`
+
+var c06IsOperands = []c06IsOperand{
+	{"null", "null", false, 0}, {"nul", "null", false, 0}, {"$.z", "null", false, 0}, {"$.missing", "null", false, 0},
+	{"fr", "function", true, 0}, {"num", "", true, 0},
+	{"s1", "string", true, 0}, {"e1", "string", false, 0}, {"d1", "string", true, 2.5}, {"'7'", "string", true, 7}, {"$.s", "string", true, 0},
+	{"n1", "number", true, 7}, {"z0", "number", false, 0}, {"2.5", "number", true, 2.5}, {"$.n", "number", true, 5}, {"$.zero", "number", false, 0},
+	{"true", "bool", true, 1}, {"false", "bool", false, 0}, {"t1", "bool", true, 1}, {"f1", "bool", false, 0}, {"$.f", "bool", false, 0},
+	{"arr", "array", true, 0}, {"e2", "array", true, 0}, {"[1, 2]", "array", true, 0}, {"$.a", "array", true, 0},
+	{"o", "object", true, 0}, {"$.o", "object", true, 0}, {"$", "object", true, 0},
+	{"/a/", "regex", false, 0},
+	{"un", "unknown", false, 0}, {"un.k", "null", false, 0},
+}
+
+var c06IsTypes = []string{"null", "function", "string", "number", "bool", "array", "object", "regex", "unknown", "nothing"}
+
+var c06IsPrefixes = [][]string{{}, {"!"}, {"-"}, {"+"}, {"!", "!"}, {"-", "-"}, {"!", "-"}, {"-", "!"}, {"+", "!"}, {"!", "+"}, {"!", "!", "!"}, {"-", "!", "!"}}
+
+// c06IsValue: the value of a tree of atoms (c06IsOperands), prefix ! - + and `is`, as (type, truthy, number)
+func c06IsValue(n *c06N) c06IsOperand {
+	switch n.k {
+	case "atom":
+		for _, o := range c06IsOperands {
+			if o.text == n.op {
+				return o
+			}
+		}
+		panic("c06: operand " + n.op)
+	case "un":
+		v := c06IsValue(n.a)
+		switch n.op {
+		case "!":
+			b := !v.truthy
+			f := 0.0
+			if b {
+				f = 1
+			}
+			return c06IsOperand{"", "bool", b, f}
+		case "-":
+			return c06IsOperand{"", "number", v.num != 0, -v.num}
+		default:
+			return c06IsOperand{"", "number", v.num != 0, v.num}
+		}
+	case "is":
+		v := c06IsValue(n.a)
+		b := v.ty == n.op && v.ty != ""
+		f := 0.0
+		if b {
+			f = 1
+		}
+		return c06IsOperand{"", "bool", b, f}
+	}
+	panic("c06: node " + n.k)
+}
+
+func c06IsShow(v c06IsOperand) string {
+	if v.ty == "bool" {
+		return strconv.FormatBool(v.truthy)
+	}
+	if v.num == 0 && math.Signbit(v.num) {
+		return "-0"
+	}
+	return strconv.FormatFloat(v.num, 'f', -1, 64)
+}
+
+// c06EmitIs: the renderings of one tree (as c06EmitPAS), the printed value also checked against
+// the closed form when expect is not empty
+func c06EmitIs(r *rand.Rand, emit func(Case), id string, tree *c06N, expect string, extra map[string]string) {
+	texts := []string{
+		c06Text(tree, c06Min, r, c06Tight),
+		c06Text(tree, c06Min, r, c06Spaced),
+		c06Text(tree, c06Full, r, c06Tight),
+		c06Text(tree, c06Redundant, r, r.Intn(3)),
+	}
+	names := []string{"minimal, no blanks", "minimal, blanks", "full", "redundant"}
+	sib := &c06Siblings{}
+	seen := map[string]bool{}
+	for i, t := range texts {
+		if seen[t] {
+			continue
+		}
+		seen[t] = true
+		meta := map[string]string{"expression": t, "rendering": names[i], "minimal": texts[0], "full": texts[2], "expected value": expect}
+		for k, v := range extra {
+			meta[k] = v
+		}
+		emit(Case{ID: id + "/pexpr/" + names[i], Req: "pexpr " + hxs(t), Fields: c06ParseFields, Meta: meta,
+			Oracle: sib.oracle(t), NonTrivial: c06DumpNT})
+		prog := c06IsFuncs + "{\n" + c06IsPreset + "r = " + t + "\nprint r\nprint r is bool, r is number, un is unknown, y\n}\n"
+		files := []File{{Name: "in.json", Data: []byte(c06IsInput)}}
+		pm := metaProg(prog, "expression", t, "rendering", names[i], "minimal", texts[0], "full", texts[2], "expected value", expect)
+		for k, v := range extra {
+			pm[k] = v
+		}
+		var oracle func(Resp) string
+		if expect != "" {
+			text := t
+			oracle = func(i Resp) string {
+				if i["class"] != "ok" {
+					return fmt.Sprintf("%s must evaluate (to %s): %s (%s)", text, expect, i["class"], i["msg"])
+				}
+				if got := strings.SplitN(string(i.Bytes("out")), "\n", 2)[0]; got != expect {
+					return fmt.Sprintf("%s must be %s under the grouping %s, the implementation prints %s", text, expect, texts[2], got)
+				}
+				return ""
+			}
+		}
+		emit(Case{ID: id + "/run/" + names[i], Req: RunReq(prog, nil, files, false), Fields: []string{"class", "out", "line", "col"}, Meta: pm,
+			Group: id, GroupFields: []string{"class", "out"}, Oracle: oracle})
+	}
+}
+
+func c06IsAfterPrefix(r *rand.Rand, tier string, emit func(Case)) {
+	wrap := func(n *c06N, ops []string) *c06N {
+		for i := len(ops) - 1; i >= 0; i-- {
+			n = &c06N{k: "un", op: ops[i], a: n}
+		}
+		return n
+	}
+	ctxs := []c06Ctx{
+		{"E == false", func(c *c06N) *c06N { return &c06N{k: "bin", op: "==", a: c, b: c06Atom("false")} }},
+		{"true && E", func(c *c06N) *c06N { return &c06N{k: "bin", op: "&&", a: c06Atom("true"), b: c} }},
+		{"y + E", func(c *c06N) *c06N { return &c06N{k: "bin", op: "+", a: c06Atom("y"), b: c} }},
+		{"y * E", func(c *c06N) *c06N { return &c06N{k: "bin", op: "*", a: c06Atom("y"), b: c} }},
+		{"y == E", func(c *c06N) *c06N { return &c06N{k: "bin", op: "==", a: c06Atom("y"), b: c} }},
+		{"E is bool", func(c *c06N) *c06N { return &c06N{k: "is", op: "bool", a: c} }},
+		{"E is null", func(c *c06N) *c06N { return &c06N{k: "is", op: "null", a: c} }},
+		{"r2 = E", func(c *c06N) *c06N { return &c06N{k: "asg", op: "=", a: c06Atom("r2"), b: c} }},
+	}
+	for _, ty := range c06IsTypes {
+		for _, pre := range c06IsPrefixes {
+			// every place the type test can take in the stack: j operators stay outside it
+			for j := 0; j <= len(pre); j++ {
+				// operands: in the thorough tier all; else one of the type, two that differ in truthiness, three sampled
+				var ops []c06IsOperand
+				if tier == "thorough" {
+					ops = c06IsOperands
+				} else {
+					seen := map[string]bool{}
+					add := func(o c06IsOperand) {
+						if !seen[o.text] {
+							seen[o.text] = true
+							ops = append(ops, o)
+						}
+					}
+					var same []c06IsOperand
+					for _, o := range c06IsOperands {
+						if o.ty == ty {
+							same = append(same, o)
+						}
+					}
+					if len(same) > 0 {
+						add(pick(r, same))
+					}
+					add(pick(r, []c06IsOperand{c06IsOperands[11], c06IsOperands[13], c06IsOperands[6], c06IsOperands[21]})) // truthy, not null
+					add(pick(r, []c06IsOperand{c06IsOperands[0], c06IsOperands[2], c06IsOperands[12], c06IsOperands[17], c06IsOperands[7]}))
+					for k := 0; k < 3; k++ {
+						add(pick(r, c06IsOperands))
+					}
+				}
+				for _, o := range ops {
+					core := wrap(&c06N{k: "is", op: ty, a: wrap(c06Atom(o.text), pre[j:])}, pre[:j])
+					id := fmt.Sprintf("is:%s:%s:%d:%s", ty, strings.Join(pre, ""), j, o.text)
+					extra := map[string]string{"row": "is " + ty, "col": fmt.Sprintf("prefix %s, %d outside", strings.Join(pre, " "), j)}
+					c06EmitIs(r, emit, id, core, c06IsShow(c06IsValue(core)), extra)
+					if tier == "thorough" || chance(r, 0.15) {
+						c := pick(r, ctxs)
+						extra["context"] = c.name
+						c06EmitIs(r, emit, id+":"+c.name, c.mk(core), "", extra)
+					}
+				}
+			}
+		}
+	}
+}
+
+// ---- many parenthesised groups -------------------------------------------------
+
+// c06GroupTerm: a product whose second factor needs its parentheses, nested to the given depth
+// (1: a * (b + c); 2: a * (b + (c - d)); 3: a * (b + (c - (d + e)))), and its value
+func c06GroupTerm(r *rand.Rand, depth int) (string, int) {
+	a, b := 2+r.Intn(3), 1+r.Intn(4)
+	inner, val := "", 0
+	switch depth {
+	case 1:
+		c := 1 + r.Intn(4)
+		inner, val = fmt.Sprintf("(%d + %d)", b, c), b+c
+	case 2:
+		c, d := 5+r.Intn(4), 1+r.Intn(4)
+		inner, val = fmt.Sprintf("(%d + (%d - %d))", b, c, d), b+(c-d)
+	default:
+		c, d, e := 9, 1+r.Intn(3), 1+r.Intn(3)
+		inner, val = fmt.Sprintf("(%d + (%d - (%d + %d)))", b, c, d, e), b+(c-(d+e))
+	}
+	if chance(r, 0.3) {
+		return fmt.Sprintf("%s * %d", inner, a), a * val
+	}
+	return fmt.Sprintf("%d * %s", a, inner), a * val
+}
+
+func c06ManyGroups(r *rand.Rand, tier string, emit func(Case)) {
+	emitProg := func(id, prog string, want int, what string, groups int) {
+		exp := strconv.Itoa(want) + "\n"
+		// the model's front end takes time quadratic in the program length (30 s for 100 kB): the
+		// longest programs are decided by the closed form alone
+		emit(Case{ID: id, Req: RunReq(prog, nil, nil, false), Fields: []string{"class", "out", "line", "col"}, ImplOnly: len(prog) > tierN(tier, 28000, 110000),
+			Meta: map[string]string{"program": short(prog), "what": what, "parenthesised groups": strconv.Itoa(groups), "expected": strconv.Itoa(want), "row": what},
+			Oracle: func(i Resp) string {
+				if i["class"] != "ok" {
+					return fmt.Sprintf("a program with %d parenthesised groups (%s) must run and print %d: %s (%s)", groups, what, want, i["class"], i["msg"])
+				}
+				if got := string(i.Bytes("out")); got != exp {
+					return fmt.Sprintf("%d parenthesised groups (%s): the value must be %d, the implementation prints %q", groups, what, want, got)
+				}
+				return ""
+			}})
+	}
+	counts := []int{150, 199, 200, 201, 250, 1000, 5000}
+	if tier == "thorough" {
+		counts = append(counts, 128, 255, 256, 257, 512, 2000, 20000)
+	}
+	for _, n := range counts {
+		for depth := 1; depth <= 3; depth++ {
+			terms := make([]string, n)
+			sum := 0
+			for i := range terms {
+				t, v := c06GroupTerm(r, depth)
+				terms[i], sum = t, sum+v
+			}
+			groups := n * depth
+			// (1) one expression: a sum of products
+			emitProg(fmt.Sprintf("groups:one-expression:%d:%d", n, depth), "BEGIN { print "+strings.Join(terms, " + ")+" }", sum, fmt.Sprintf("one sum of products, nesting depth %d", depth), groups)
+			// (2) one statement per term
+			var sb strings.Builder
+			sb.WriteString("BEGIN {\n  x = 0\n")
+			for _, t := range terms {
+				sb.WriteString("  x = x + " + t + "\n")
+			}
+			sb.WriteString("  print x\n}\n")
+			emitProg(fmt.Sprintf("groups:statements:%d:%d", n, depth), sb.String(), sum, fmt.Sprintf("one statement per group, nesting depth %d", depth), groups)
+			// (3) spread over functions and rules
+			sb.Reset()
+			nf := 1 + r.Intn(8)
+			for f := 0; f < nf; f++ {
+				fmt.Fprintf(&sb, "function f%d(x) {\n", f)
+				for i := f; i < n/2; i += nf {
+					sb.WriteString("  x = x + " + terms[i] + "\n")
+				}
+				sb.WriteString("  return x\n}\n")
+			}
+			sb.WriteString("BEGIN { x = 0 }\n")
+			for i := n / 2; i < n; i++ {
+				if i%3 == 0 {
+					sb.WriteString("BEGIN { x = x + " + terms[i] + " }\n")
+				} else {
+					sb.WriteString("BEGIN { if (" + terms[i] + " > 0) x += (" + terms[i] + ") }\n")
+					groups += depth + 1
+				}
+			}
+			sb.WriteString("BEGIN { ")
+			for f := 0; f < nf; f++ {
+				fmt.Fprintf(&sb, "x = f%d(x); ", f)
+			}
+			sb.WriteString("print x }\n")
+			emitProg(fmt.Sprintf("groups:functions-and-rules:%d:%d", n, depth), sb.String(), sum, fmt.Sprintf("groups spread over functions, rules and conditions, nesting depth %d", depth), groups)
+		}
+		// (4) call arguments, array literals and index expressions between the groups
+		{
+			var sb strings.Builder
+			sb.WriteString("function id(v) { return v }\nBEGIN {\n  x = 0; a = [1, 2, 3]\n")
+			sum := 0
+			for i := 0; i < n; i++ {
+				t, v := c06GroupTerm(r, 1)
+				// every statement holds a call, an array literal, an index and groups
+				switch i % 3 {
+				case 0:
+					sb.WriteString("  x = x + id([(" + t + ")][(1 - 1)])\n")
+				case 1:
+					sb.WriteString("  x = x + [id(" + t + "), 0][0] + a[(1 + 1)] * 0\n")
+				default:
+					sb.WriteString("  x = (x + id([" + t + "])[0])\n")
+				}
+				sum += v
+			}
+			sb.WriteString("  print x\n}\n")
+			emitProg(fmt.Sprintf("groups:with-calls-and-brackets:%d", n), sb.String(), sum, "groups next to calls, array literals and indexes", 2*n)
+		}
+	}
+	// (5) deep nesting
+	deep := []int{150, 199, 200, 201, 250, 300}
+	if tier == "thorough" {
+		deep = append(deep, 100, 128, 255, 256, 257, 400, 600)
+	}
+	for _, d := range deep {
+		// ((((1 + 1) + 1) + 1) ...)
+		emitProg(fmt.Sprintf("groups:deep-left:%d", d), "BEGIN { print "+strings.Repeat("(", d)+"1"+strings.Repeat(" + 1)", d)+" }", d+1, "left-nested groups", d)
+		// 10 - (10 - (10 - ... 3))
+		v := 3
+		for i := 0; i < d; i++ {
+			v = 10 - v
+		}
+		emitProg(fmt.Sprintf("groups:deep-right:%d", d), "BEGIN { print "+strings.Repeat("10 - (", d)+"3"+strings.Repeat(")", d)+" }", v, "right-nested groups", d)
+		// redundant pairs around one atom, then more groups after it
+		emitProg(fmt.Sprintf("groups:deep-redundant:%d", d), "BEGIN { x = "+strings.Repeat("(", d)+"7"+strings.Repeat(")", d)+"\n  print x * (1 + 1) }", 14, "redundant pairs around one atom, then one more group", d+1)
+		// deep groups inside array literals and call arguments
+		emitProg(fmt.Sprintf("groups:deep-in-array:%d", d), "BEGIN { a = ["+strings.Repeat("(", d)+"1"+strings.Repeat(" + 1)", d)+", 2 * (3 + 4)]\n  print a[0] + a[1] }", d+1+14, "left-nested groups inside an array literal", d+1)
+		// d nested array literals, then groups (brackets are counted by a nesting guard too)
+		emitProg(fmt.Sprintf("groups:nested-arrays:%d", d), "BEGIN { a = "+strings.Repeat("[", d)+"5"+strings.Repeat("]", d)+"\n  b = [[(1 + 2)], [(3 + 4)]]\n  print a.length() + b[0][0] * (b[1][0] + 1) }", 1+3*8, "nested array literals, then groups", 3)
+	}
+	// (6) many programs' worth of groups in sequence in one process: a counter that survived a parse
+	for k := 0; k < tierN(tier, 3, 10); k++ {
+		var reqs []string
+		var last string
+		want := 0
+		for j := 0; j < 4; j++ {
+			terms := make([]string, 120)
+			sum := 0
+			for i := range terms {
+				t, v := c06GroupTerm(r, 1)
+				terms[i], sum = t, sum+v
+			}
+			last = RunReq("BEGIN { print "+strings.Join(terms, " + ")+" }", nil, nil, false)
+			want = sum
+			reqs = append(reqs, last)
+		}
+		exp := strconv.Itoa(want) + "\n"
+		emit(Case{ID: fmt.Sprintf("groups:four-programs:%d", k), Req: "seq " + strings.Join(reqs, "|"), ModelReq: last, Fields: []string{"class", "out"},
+			Meta: map[string]string{"what": "four programs of 120 groups each, one after the other in one process", "row": "four programs in one process"},
+			Oracle: func(i Resp) string {
+				if i["class"] != "ok" || string(i.Bytes("out")) != exp {
+					return fmt.Sprintf("the fourth program of 120 groups must print %d: %s %q", want, i["class"], string(i.Bytes("out")))
+				}
+				return ""
+			}})
+	}
+}
+
+func init() {
+	register(Family{
+		Name: "is-after-prefix", Prop: "C06",
+		Rule: "the type test `is` with every type name (null function string number bool array object regex unknown, and a name that is no type) after every prefix operator stack (none, ! - +, !! -- !- -! +! !+ !!! -!!) with the test at every place in the stack (`!x is T` = `(!x) is T`, `!(x is T)`, `-(!x is T)`, ...), over operands of every type (literals, variables, members of $, missing members, user and builtin functions, a regex literal, an unset variable; truthy and falsy, zero and non-zero), so that the groupings differ in value; each tree written minimally with and without blanks, fully parenthesised and with redundant parentheses: one AST (oracle), one value (group), value = closed form computed from the tree (oracle: ! gives a bool, - + give a number, `is` compares the type), all vs model; a sample inside a larger expression (== && + * is =)",
+		Gen:  c06IsAfterPrefix,
+	})
+	register(Family{
+		Name: "many-groups", Prop: "C06",
+		Rule: "programs with MANY parenthesised groups: 150 / 199 / 200 / 201 / 250 / 1000 / 5000 products `a * (b + c)` (nesting depth 1-3, every pair of parentheses needed) summed in one expression, one per statement, spread over functions, rules and if-conditions, next to calls, array literals and indexes; nesting 150-300 deep to the left, to the right, redundant pairs around one atom, inside array literals, nested array literals; four programs in a row in one process; the value must equal the closed form (oracle) and the model's",
+		Gen:  c06ManyGroups,
 	})
 }
